@@ -53,6 +53,25 @@ def roundtrip(model, fmt, sort, tmpdir):
     raise AssertionError(fmt)
 
 
+def bench_model(op):
+    """Bench model after one bench operation (corpus of reachable states, DESIGN §4 C10/C11)."""
+    from .. import bench
+
+    S = bench.Session("glpk")
+    if op is not None:
+        bench.run_history(S, [op])
+    m = S.model
+    # user-level solver items are not part of any file format
+    for name in ("uc", "uv2_c"):
+        if name in m.constraints:
+            m.remove_cons_vars([m.constraints[name]])
+    for name in ("uv", "uv2"):
+        if name in m.variables:
+            m.remove_cons_vars([m.variables[name]])
+    m.solver.update()
+    return m
+
+
 def check_case(d, fmt, sort, cfg, tmpdir):
     import cobra
 
@@ -64,7 +83,7 @@ def check_case(d, fmt, sort, cfg, tmpdir):
             conf.bounds = cfg
         with warnings.catch_warnings():
             warnings.simplefilter("ignore")
-            model = iomodels.build(d)
+            model = bench_model(d["bench_op"]) if "bench_op" in d else iomodels.build(d)
             groups = fmt == "pickle"
             before = iomodels.content_view(model, with_groups=groups)
             order_before = [r.id for r in model.reactions], [m.id for m in model.metabolites], [g.id for g in model.genes]
@@ -126,6 +145,17 @@ def run_task(payload):
     stats, violations = {}, []
     with tempfile.TemporaryDirectory(prefix="c11_") as tmpdir:
         for d, fmt, sort, cfg in payload["cases"]:
+            if "bench_op" in d:
+                from ..benchsearch import _t
+
+                stats["evaluations"] = stats.get("evaluations", 0) + 1
+                dd = {"bench_op": _t(d["bench_op"]) if d["bench_op"] is not None else None}
+                for kind, detail in check_case(dd, fmt, sort, None, tmpdir):
+                    opname = d["bench_op"][0] if d["bench_op"] else "none"
+                    violations.append(({"format": fmt.split("_")[0], "problem": kind, "config": "default", "bench_op": opname},
+                                       {"bench_op": d["bench_op"], "format": fmt, "sort": sort, "config": None},
+                                       f"{kind}\nbench after {d['bench_op']}; format {fmt}; sort {sort}\n{detail}"))
+                continue
             d = {k: (tuple(v) if isinstance(v, list) else v) for k, v in d.items()}
             stats["evaluations"] = stats.get("evaluations", 0) + 1
             cfg = tuple(cfg) if cfg else None
@@ -163,6 +193,14 @@ def _ju(d):
 
 
 def replay(case):
+    if "bench_op" in case:
+        from ..benchsearch import _t
+
+        with tempfile.TemporaryDirectory(prefix="c11_") as tmpdir:
+            op = _t(case["bench_op"]) if case["bench_op"] is not None else None
+            probs = check_case({"bench_op": op}, case["format"], case["sort"], None, tmpdir)
+        return [{"sig": {"format": case["format"].split("_")[0], "problem": k, "config": "default",
+                         "bench_op": case["bench_op"][0] if case["bench_op"] else "none"}, "detail": d} for k, d in probs]
     d = _ju(case["features"])
     with tempfile.TemporaryDirectory(prefix="c11_") as tmpdir:
         probs = check_case(d, case["format"], case["sort"], tuple(case["config"]) if case["config"] else None, tmpdir)
@@ -198,6 +236,15 @@ def explore(ctx):
             if len(iomodels.describe(d)) == 2:
                 cases.append((d, "json_str", False, None))
                 cases.append((d, "yaml_str", True, None))
+    # corpus: every bench state reachable with one operation
+    from .. import bench
+    from ..benchsearch import _l
+
+    bench_ops = [None] + [o for o in bench.alphabet(ctx.tier) if o[0] not in ("enter", "exit", "exit_exc", "optimize",
+                                                                           "slim_optimize", "tolerance")]
+    for op in bench_ops:
+        for fmt in ("json_str", "yaml_str", "dict", "pickle"):
+            cases.append(({"bench_op": _l(op) if op is not None else None}, fmt, False, None))
     off = ctx.seed % len(cases)
     cases = cases[off:] + cases[:off]
     chunk = 25
@@ -213,7 +260,8 @@ def explore(ctx):
                         r1 = ctx.collect(st1, res1)
                         if r1 is None and st1 in ("abort", "timeout"):
                             ctx.violation({"format": c[1].split("_")[0], "problem": "process " + st1,
-                                           "features": "+".join(sorted(iomodels.describe(c[0]))) or "default"},
+                                           "features": "bench" if "bench_op" in c[0] else
+                                           ("+".join(sorted(iomodels.describe(c[0]))) or "default")},
                                           {"features": _jl(c[0]), "format": c[1], "sort": c[2], "config": None}, st1)
                         elif r1:
                             stats["evaluations"] = stats.get("evaluations", 0) + 1
@@ -224,7 +272,8 @@ def explore(ctx):
         "states": len(models), "transitions": stats.get("evaluations", 0),
         "traces_validated_against_impl": stats.get("evaluations", 0),
         "evaluations": stats.get("evaluations", 0),
-        "distinct_nontrivial": len({str(c[0]) for c in cases if iomodels.describe(c[0])}),
+        "distinct_nontrivial": len({str(c[0]) for c in cases if "bench_op" in c[0] or iomodels.describe(c[0])}),
+        "bench_corpus_states": len(bench_ops),
         "rule": "feature-product models (ids, bounds, objective, rule, groups, notes, annotation, names; %d values in total) "
                 "with bounded deviations from the default x {json str/path/handle+pretty, yaml str/path, dict, pickle} x "
                 "sort on/off; Configuration bounds {(-50,50), (-1e6,1e6)} for bound/objective deviations; non-trivial = at "
